@@ -59,6 +59,24 @@ claim("C15", "proof",
       LR_NOTE + " The spec file is read by a small tokenizer; annotations come from an untrusted Python LR(1) construction and are checked by the validator.",
       "kernel-evaluated verified validator on the shipped tables vs the documented grammar (Rocq) + differential correspondence of the real loop", "6 C15")
 
+claim("C19", "proof",
+      "Coq theorems (Properties/C19.v) over a model of md.loadMd: for every document built from prose and bare ``` fenced code pieces the "
+      "text handed to the scanner is the code kept verbatim at its own offsets and everything else blanked; UNCONDITIONALLY (every rune "
+      "string) length and newline positions are preserved, so every rune keeps offset, line and column. Tied to the code by running loadMd "
+      "(tagged export) and the extracted model on random documents, and by running the real binary on x.md vs the concatenated blocks "
+      "(identical packages, same exit status) and on planted syntax errors (reported line:column = markdown position).",
+      "Coq kernel; hand-written model tied by differential testing; blocks on their own lines (splits inside a token are outside the property).",
+      "Rocq proof (structural recursion on the rune list) + extracted-model correspondence + tool-level metamorphic run", "6 C19")
+claim("C20", "proof",
+      "Coq theorems (Properties/C20.v): for every valid Go rune literal (specification written from the Go language spec) the decoder "
+      "shared by gocc and the generated util package returns Go's code point; every spelling of every code point decodes to it; uint32 "
+      "arithmetic never wraps. Tied to the code by comparing the model with util.LitToRune and with the compiled generated util.RuneValue "
+      "on every spelling of the code points of the run (exhaustive over all 1,112,064 scalar values in the thorough tier) and on malformed "
+      "literals, by comparing the specification with strconv.UnquoteChar, by textual identity of the two Go copies, and IntValue/UintValue "
+      "with strconv on boundary decimals.",
+      "Coq kernel; strconv is the reference for Go semantics; two compiler implementation restrictions (raw NUL, raw U+FEFF) excluded.",
+      "Rocq proof (symbolic over digits, lia) + exhaustive/finite correspondence of extracted model, Go decoder, generated decoder and strconv", "6 C20")
+
 ALL = ["C%02d" % i for i in range(1, 21)]
 NOT_YET = "framework under construction: check for this property not built yet (planned, see DESIGN.md section 6)"
 
